@@ -391,8 +391,10 @@ func runC06(c *Ctx) {
 	twins := []twin{
 		{nm, anm, map[string]string{}},
 		{w.NextFrame, w.AsyncNextFrame, map[string]string{
-			"store state=5": "the blocking variant stores Terminated when the inner read returns EOF, the asynchronous one when the flush fails / the stream cannot be read; both are terminations",
-			"var EOF":       "the blocking variant re-checks io.EOF from nextFrame",
+			"store state=5":       "the blocking variant stores Terminated when the inner read returns EOF, the asynchronous one when the flush fails / the stream cannot be read; both are terminations",
+			"var EOF":             "the blocking variant re-checks io.EOF from nextFrame",
+			"builtin len":         "either variant may test for an empty pending queue before flushing (C08-R5 decides that a skipped flush is skipped only then)",
+			"field pendingFrames": "as above",
 		}},
 		{w.nextFrame, w.asyncNextFrame, map[string]string{}},
 	}
